@@ -175,6 +175,8 @@ fn analyzer_route(thorough: bool) -> (u64, Vec<(String, String, String)>) {
         "100 PRINT 1",
         // a line that stops tokenizing after several good tokens
         "90 PRINT 1 %",
+        // names met as subscripted targets of READ / INPUT / DIM
+        "30 READ QQ(2): INPUT RR(1)",
     ];
     let n = if thorough { 4 } else { 3 };
     let base = set.len() as u64;
